@@ -18,12 +18,18 @@ import time
 pid, letter = sys.argv[1], sys.argv[2]
 checks = [pid]
 tier = "quick"
+base = "/tmp/mut"
+rnd = ""
 for i, a in enumerate(sys.argv):
+    if a == "--src":
+        base = sys.argv[i + 1]
+    if a == "--round":
+        rnd = sys.argv[i + 1]
     if a == "--checks":
         checks = sys.argv[i + 1].split(",")
     if a == "--tier":
         tier = sys.argv[i + 1]
-src = "/tmp/mut/%s" % pid
+src = "%s/%s" % (base, pid)
 diff = os.path.join(src, "mutation_%s.diff" % letter)
 demo = os.path.join(src, "demo_%s.rs" % letter)
 notes = os.path.join(src, "notes_%s.txt" % letter)
@@ -36,12 +42,12 @@ def sh(cmd, cwd=None, timeout=1800):
     return p.returncode, p.stdout + p.stderr
 
 
-wt = "/tmp/mutcheck/%s%s" % (pid, letter)
+wt = "/tmp/mutcheck/%s%s%s" % (pid, letter, rnd)
 shutil.rmtree(wt, ignore_errors=True)
 sh("git -C /repo worktree prune")
 rc, out = sh("git -C /repo worktree add --detach %s HEAD" % wt)
 assert rc == 0, out
-meta = {"property": pid, "id": "%s-%s" % (pid, letter), "source": "independent sub-agent given only the property text and a scratch worktree",
+meta = {"property": pid, "id": "%s-%s%s" % (pid, letter, rnd), "source": "independent sub-agent given only the property text and a scratch worktree",
         "repo_head": sh("git -C /repo rev-parse --short HEAD")[1].strip(), "ran": []}
 ok = True
 try:
@@ -96,7 +102,7 @@ if ok:
         sh("git -C /repo checkout -- .")
 meta["checks"] = verdicts
 meta["caught_by"] = [c for c, v in verdicts.items() if v["rc"] == 1]
-dst = "/verif/seeded/%s-%s" % (pid, letter)
+dst = "/verif/seeded/%s-%s%s" % (pid, letter, rnd)
 os.makedirs(dst, exist_ok=True)
 if ok:
     shutil.copy(diff, os.path.join(dst, "patch.diff"))
